@@ -27,18 +27,38 @@
 #include <fcppt/log/parameters.hpp>
 #include <fcppt/log/verbose.hpp>
 #include <fcppt/log/warning.hpp>
+#include <fcppt/log/default_level_streams.hpp>
+#include <fcppt/log/default_stream.hpp>
+#include <fcppt/log/level_from_string.hpp>
+#include <fcppt/log/level_input.hpp>
+#include <fcppt/log/level_output.hpp>
+#include <fcppt/log/level_to_string.hpp>
+#include <fcppt/log/parameters_no_function.hpp>
+#include <fcppt/log/format/chain.hpp>
 #include <fcppt/log/format/default_level.hpp>
 #include <fcppt/log/format/function.hpp>
+#include <fcppt/log/format/inserter.hpp>
 #include <fcppt/log/format/optional_function.hpp>
+#include <fcppt/log/format/prefix.hpp>
+#include <fcppt/log/format/prefix_string.hpp>
+#include <fcppt/log/format/suffix_string.hpp>
+#include <fcppt/log/format/time_stamp.hpp>
+#include <fcppt/io/cerr.hpp>
+#include <fcppt/io/clog.hpp>
 #include <fcppt/optional/maybe.hpp>
+#include <fcppt/time/localtime.hpp>
+#include <fcppt/time/output_tm.hpp>
 
 #include <array>
+#include <cstdint>
+#include <ctime>
 #include <cstddef>
 #include <exception>
 #include <memory>
 #include <optional>
 #include <sstream>
 #include <string>
+#include <string_view>
 #include <utility>
 #include <vector>
 
@@ -160,10 +180,36 @@ std::optional<fcppt::log::location> parse_loc(std::string const &s)
   return r;
 }
 
+std::vector<std::string> split(std::string const &s, char const sep)
+{
+  std::vector<std::string> parts;
+  std::size_t pos = 0;
+  while (true)
+  {
+    std::size_t const next = s.find(sep, pos);
+    parts.push_back(s.substr(pos, next == std::string::npos ? next : next - pos));
+    if (next == std::string::npos)
+      break;
+    pos = next + 1;
+  }
+  return parts;
+}
+
+// `-` | `P:<p>` (format::prefix) | `I:<pre>:<suf>` (format::inserter) | `L:<k>` (format::default_level) | tag
 fcppt::log::format::optional_function parse_fmt(std::string const &s)
 {
   if (s == "-")
     return fcppt::log::format::optional_function{};
+  std::vector<std::string> const parts = split(s, ':');
+  if (parts.size() == 2 && parts[0] == "P")
+    return fcppt::log::format::optional_function{
+        fcppt::log::format::prefix(fcppt::log::format::prefix_string{parts[1]})};
+  if (parts.size() == 3 && parts[0] == "I")
+    return fcppt::log::format::optional_function{fcppt::log::format::inserter(
+        fcppt::log::format::prefix_string{parts[1]}, fcppt::log::format::suffix_string{parts[2]})};
+  if (parts.size() == 2 && parts[0] == "L")
+    if (auto const l = parse_lvl_nat(parts[1]))
+      return fcppt::log::format::optional_function{fcppt::log::format::default_level(to_level(*l))};
   return fcppt::log::format::optional_function{fcppt::log::format::function{
       [tag = s](fcppt::string const &t) -> fcppt::string { return tag + "<" + t + ">"; }}};
 }
@@ -192,6 +238,14 @@ std::string esc(std::string const &s)
   return r;
 }
 
+std::string show_name(std::string const &s) { return s.empty() ? std::string{"_"} : s; }
+
+std::string show_opt(fcppt::log::format::optional_function const &f, std::string const &text)
+{
+  return fcppt::optional::maybe(
+      f, [] { return std::string{"-"}; }, [&text](fcppt::log::format::function const &g) { return esc(g(text)); });
+}
+
 std::string obj_line(fcppt::log::object const &o)
 {
   std::string bits;
@@ -207,50 +261,282 @@ std::string add_obj(std::unique_ptr<fcppt::log::object> &&o)
   return "obj=" + std::to_string(id) + " " + obj_line(*objects.back());
 }
 
+// how often the message expression of a FCPPT_LOG_* macro was evaluated
+unsigned evaluations = 0;
+
+std::string const &counted(std::string const &msg)
+{
+  ++evaluations;
+  return msg;
+}
+
 void log_macro(fcppt::log::object &o, unsigned const l, std::string const &msg)
 {
   switch (l)
   {
-  case 0: FCPPT_LOG_VERBOSE(o, fcppt::log::out << msg) break;
-  case 1: FCPPT_LOG_DEBUG(o, fcppt::log::out << msg) break;
-  case 2: FCPPT_LOG_INFO(o, fcppt::log::out << msg) break;
-  case 3: FCPPT_LOG_WARNING(o, fcppt::log::out << msg) break;
-  case 4: FCPPT_LOG_ERROR(o, fcppt::log::out << msg) break;
-  case 5: FCPPT_LOG_FATAL(o, fcppt::log::out << msg) break;
+  case 0: FCPPT_LOG_VERBOSE(o, fcppt::log::out << counted(msg)) break;
+  case 1: FCPPT_LOG_DEBUG(o, fcppt::log::out << counted(msg)) break;
+  case 2: FCPPT_LOG_INFO(o, fcppt::log::out << counted(msg)) break;
+  case 3: FCPPT_LOG_WARNING(o, fcppt::log::out << counted(msg)) break;
+  case 4: FCPPT_LOG_ERROR(o, fcppt::log::out << counted(msg)) break;
+  case 5: FCPPT_LOG_FATAL(o, fcppt::log::out << counted(msg)) break;
   default: break;
   }
 }
 
-std::string do_log(bool const macro, std::string const &id, std::string const &lvl, std::string const &msg)
+// the sinks are empty between two operations: collect_sinks empties what it reports
+void clear_sinks()
 {
-  auto const i = parse_nat(id);
-  auto const l = parse_lvl_nat(lvl);
-  if (!i || !l || *i >= objects.size())
-    return "bad-op";
-  fcppt::log::object &o = *objects[*i];
   for (auto &s : sinks)
-  {
-    s.str("");
-    s.clear();
-  }
-  if (macro)
-    log_macro(o, *l, msg);
-  else
-    o.log(to_level(*l), fcppt::log::out << msg);
+    if (!s.view().empty() || !s.good())
+    {
+      s.str("");
+      s.clear();
+    }
+}
+
+std::string collect_sinks()
+{
   std::string r;
   for (unsigned k = 0; k < level_count; ++k)
   {
-    std::string const text = sinks[k].str();
+    std::string_view const text = sinks[k].view();
     if (text.empty())
       continue;
     if (!r.empty())
       r += ';';
-    r += std::to_string(k) + "|" + esc(text);
+    r += std::to_string(k) + "|" + esc(std::string{text});
+    sinks[k].str("");
+    sinks[k].clear();
   }
   return "emit=" + (r.empty() ? std::string{"-"} : r);
 }
 
-std::string handle_inner(std::vector<std::string> const &t)
+fcppt::log::object *get_obj(std::string const &id)
+{
+  auto const i = parse_nat(id);
+  if (!i || *i >= objects.size())
+    return nullptr;
+  return objects[*i].get();
+}
+
+enum class log_kind
+{
+  direct,
+  macro,
+  parts,
+  assigned
+};
+
+std::string do_log(log_kind const kind, std::string const &id, std::string const &lvl, std::string const &msg, std::string const &msg2)
+{
+  fcppt::log::object *const o = get_obj(id);
+  auto const l = parse_lvl_nat(lvl);
+  if (o == nullptr || !l)
+    return "bad-op";
+  clear_sinks();
+  switch (kind)
+  {
+  case log_kind::direct:
+    o->log(to_level(*l), fcppt::log::out << msg);
+    return collect_sinks();
+  case log_kind::macro:
+    evaluations = 0;
+    log_macro(*o, *l, msg);
+    return collect_sinks() + " ev=" + std::to_string(evaluations);
+  case log_kind::parts:
+    // several insertions of different types into one temporary_output (moved from insertion to insertion)
+    o->log(to_level(*l), fcppt::log::out << msg << msg2.size() << msg2);
+    return collect_sinks();
+  case log_kind::assigned:
+  {
+    // move assignment of a temporary_output: the first text is gone
+    fcppt::log::detail::temporary_output t{fcppt::log::out << msg};
+    t = fcppt::log::out << msg2;
+    o->log(to_level(*l), t);
+    return collect_sinks();
+  }
+  }
+  return "bad-op";
+}
+
+// ---- stateless part of the API --------------------------------------------------------------------------------
+std::string level_stream_name(fcppt::io::ostream &s)
+{
+  if (&s == &fcppt::io::clog())
+    return "clog";
+  if (&s == &fcppt::io::cerr())
+    return "cerr";
+  return "other";
+}
+
+std::optional<std::string> stateless(std::vector<std::string> const &t)
+{
+  std::string const &op = t[0];
+  if (op == "lfs" && t.size() == 2)
+    return "lvl=" + show_level(fcppt::log::level_from_string(parse_name(t[1]).get()));
+  if ((op == "lts" || op == "lout") && t.size() == 2)
+  {
+    auto const l = parse_lvl_nat(t[1]);
+    if (!l)
+      return "bad-op";
+    if (op == "lts")
+      return "name=" + std::string{fcppt::log::level_to_string(to_level(*l))};
+    std::ostringstream out;
+    out << to_level(*l);
+    return "out=" + out.str();
+  }
+  if (op == "lin" && t.size() == 2)
+  {
+    if (t[1].empty() || t[1].back() != '$')
+      return "bad-op";
+    std::string text = t[1].substr(0, t[1].size() - 1);
+    for (char &c : text)
+      c = c == '_' ? ' ' : c == '~' ? '\n' : c;
+    std::istringstream in{text};
+    fcppt::log::level var = fcppt::log::level::fatal;
+    in >> var;
+    bool const fail = in.fail();
+    std::string r = "lvl=" + std::to_string(static_cast<unsigned>(var)) + " fail=" + (fail ? "1" : "0");
+    if (!fail)
+    {
+      in.clear();
+      std::string rest;
+      for (int c = in.get(); c != std::char_traits<char>::eof(); c = in.get())
+        rest += static_cast<char>(c);
+      for (char &c : rest)
+        c = c == ' ' ? '_' : c == '\n' ? '~' : c;
+      r += " rest=" + rest + "$";
+    }
+    return r;
+  }
+  if (op == "loc" && t.size() == 2)
+  {
+    std::optional<fcppt::log::location> cur;
+    bool ok = true;
+    for (std::string const &step : split(t[1], ','))
+    {
+      std::vector<std::string> const parts = split(step, ':');
+      if (!cur)
+      {
+        if (step == "e")
+          cur = fcppt::log::location{};
+        else if (parts.size() == 2 && parts[0] == "n")
+          cur = fcppt::log::location{parse_name(parts[1])};
+        else
+          return "bad-op";
+      }
+      else if (step == "x")
+      {
+        // the argument is built from an entry of the location itself
+        fcppt::log::location &r = (*cur /= fcppt::log::name{cur->begin() == cur->end() ? fcppt::string{} : *cur->begin()});
+        ok = ok && &r == &*cur;
+      }
+      else if (parts.size() == 2 && parts[0] == "d")
+      {
+        fcppt::log::location &r = (*cur /= parse_name(parts[1]));
+        ok = ok && &r == &*cur; // operator/= returns its left operand
+      }
+      else if (parts.size() == 2 && parts[0] == "a")
+        *cur = *cur / parse_name(parts[1]); // assigned to the object it was computed from
+      else if (parts.size() == 2 && parts[0] == "m")
+        *cur = std::move(*cur) / parse_name(parts[1]);
+      else if (parts.size() == 2 && parts[0] == "s")
+      {
+        fcppt::log::location const before{*cur};
+        fcppt::log::location const sum{before / parse_name(parts[1])};
+        // operator/ leaves its (by-value) operand alone
+        ok = ok && std::vector<std::string>(before.begin(), before.end()) == std::vector<std::string>(cur->begin(), cur->end());
+        cur = sum;
+      }
+      else
+        return "bad-op";
+    }
+    if (!cur)
+      return "bad-op";
+    std::string elems;
+    std::size_t n = 0;
+    for (auto it = cur->begin(); it != cur->end(); ++it, ++n)
+      elems += (n == 0 ? "" : "|") + show_name(*it);
+    return "str=" + show_name(cur->string()) + " n=" + std::to_string(n) + " elems=" + (n == 0 ? std::string{"-"} : elems) +
+           " ok=" + (ok ? "1" : "0");
+  }
+  if (op == "chain" && t.size() == 4)
+  {
+    fcppt::log::format::optional_function const f{parse_fmt(t[1])};
+    if (t[1] == t[2]) // the same object on both sides
+      return "r=" + show_opt(fcppt::log::format::chain(f, f), t[3]);
+    fcppt::log::format::optional_function const g{parse_fmt(t[2])};
+    return "r=" + show_opt(fcppt::log::format::chain(f, g), t[3]);
+  }
+  if (op == "fn" && t.size() == 3)
+    return "r=" + show_opt(parse_fmt(t[1]), t[2]);
+  if (op == "ts" && t.size() == 2)
+  {
+    std::time_t const before = std::time(nullptr);
+    std::string const got = fcppt::log::format::time_stamp()(t[1]);
+    std::time_t const after = std::time(nullptr);
+    for (std::time_t now = before; now <= after && now - before < 100; ++now)
+    {
+      std::ostringstream stamp;
+      fcppt::time::output_tm(stamp, fcppt::time::localtime(now));
+      std::string const pre = stamp.str() + ": ";
+      if (got.compare(0, pre.size(), pre) == 0)
+        return "ts=ok rest=" + esc(got.substr(pre.size()));
+    }
+    return "ts=bad";
+  }
+  if (op == "ls" && t.size() == 5)
+  {
+    if (t[3] != "0" && t[3] != "1")
+      return "bad-op";
+    std::ostringstream a, b;
+    fcppt::log::level_stream stream{a, parse_fmt(t[1])};
+    if (t[3] == "1")
+      stream.sink(b);
+    stream.log(fcppt::log::out << t[4], parse_fmt(t[2]));
+    std::string const g = &stream.get() == &a ? "A" : &stream.get() == &b ? "B" : "?";
+    return "A=" + (a.str().empty() ? std::string{"-"} : esc(a.str())) + " B=" + (b.str().empty() ? std::string{"-"} : esc(b.str())) +
+           " g=" + g + " f=" + show_opt(stream.formatter(), "x");
+  }
+  if (op == "dstream" && t.size() == 2)
+  {
+    auto const l = parse_lvl_nat(t[1]);
+    if (!l)
+      return "bad-op";
+    return level_stream_name(fcppt::log::default_stream(to_level(*l)));
+  }
+  if (op == "dls" && t.size() == 3)
+  {
+    auto const l = parse_lvl_nat(t[1]);
+    if (!l)
+      return "bad-op";
+    fcppt::log::level_stream_array streams{fcppt::log::default_level_streams()};
+    fcppt::log::level_stream &stream = streams[to_level(*l)];
+    return "s=" + level_stream_name(stream.get()) + " f=" + show_opt(stream.formatter(), t[2]);
+  }
+  if (op == "params" && t.size() == 4)
+  {
+    fcppt::log::parameters const p{parse_name(t[1]), parse_fmt(t[2])};
+    return "name=" + show_name(p.name().get()) + " f=" + show_opt(p.formatter(), t[3]);
+  }
+  if (op == "pnf" && t.size() == 3)
+  {
+    fcppt::log::parameters const p{fcppt::log::parameters_no_function(parse_name(t[1]))};
+    return "name=" + show_name(p.name().get()) + " f=" + show_opt(p.formatter(), t[2]);
+  }
+  return std::nullopt;
+}
+
+// `-` → parameters_no_function, otherwise the two-argument constructor
+fcppt::log::parameters make_params(std::string const &name, std::string const &fmt)
+{
+  if (fmt == "-")
+    return fcppt::log::parameters_no_function(parse_name(name));
+  return fcppt::log::parameters{parse_name(name), parse_fmt(fmt)};
+}
+
+std::string handle_core(std::vector<std::string> const &t)
 {
   if (t.empty())
     return "bad-op";
@@ -288,35 +574,324 @@ std::string handle_inner(std::vector<std::string> const &t)
     return "lvl=" + show_level(c.get(*loc));
   }
   if (op == "objr" && t.size() == 3)
-    return add_obj(std::make_unique<fcppt::log::object>(
-        fcppt::make_ref(*context), fcppt::log::parameters{parse_name(t[1]), parse_fmt(t[2])}));
+    return add_obj(std::make_unique<fcppt::log::object>(fcppt::make_ref(*context), make_params(t[1], t[2])));
   if (op == "objl" && t.size() == 4)
   {
     auto const loc = parse_loc(t[1]);
     if (!loc)
       return "bad-op";
+    // always the two-argument parameters constructor here (objr / objc use parameters_no_function for `-`)
     return add_obj(std::make_unique<fcppt::log::object>(
         fcppt::make_ref(*context), *loc, fcppt::log::parameters{parse_name(t[2]), parse_fmt(t[3])}));
   }
   if (op == "objc" && t.size() == 4)
   {
-    auto const i = parse_nat(t[1]);
-    if (!i || *i >= objects.size())
+    fcppt::log::object const *const parent = get_obj(t[1]);
+    if (parent == nullptr)
       return "bad-op";
-    fcppt::log::object const &parent = *objects[*i];
-    return add_obj(
-        std::make_unique<fcppt::log::object>(parent, fcppt::log::parameters{parse_name(t[2]), parse_fmt(t[3])}));
+    return add_obj(std::make_unique<fcppt::log::object>(*parent, make_params(t[2], t[3])));
+  }
+  if (op == "del" && t.size() == 2)
+  {
+    if (get_obj(t[1]) == nullptr)
+      return "bad-op";
+    objects[*parse_nat(t[1])].reset(); // the id stays taken
+    return "ok";
   }
   if (op == "lvl" && t.size() == 2)
   {
-    auto const i = parse_nat(t[1]);
-    if (!i || *i >= objects.size())
-      return "bad-op";
-    return obj_line(*objects[*i]);
+    fcppt::log::object const *const o = get_obj(t[1]);
+    return o == nullptr ? "bad-op" : obj_line(*o);
   }
-  if ((op == "log" || op == "logm") && t.size() == 4)
-    return do_log(op == "logm", t[1], t[2], t[3]);
+  if (op == "log" && t.size() == 4)
+    return do_log(log_kind::direct, t[1], t[2], t[3], "");
+  if (op == "logm" && t.size() == 4)
+    return do_log(log_kind::macro, t[1], t[2], t[3], "");
+  if (op == "logp" && t.size() == 5)
+    return do_log(log_kind::parts, t[1], t[2], t[3], t[4]);
+  if (op == "loga" && t.size() == 5)
+    return do_log(log_kind::assigned, t[1], t[2], t[3], t[4]);
+  if (op == "fmt" && t.size() == 3)
+  {
+    fcppt::log::object const *const o = get_obj(t[1]);
+    return o == nullptr ? "bad-op" : "fmt=" + show_opt(o->formatter(), t[2]);
+  }
+  if (op == "sink" && t.size() == 5)
+  {
+    fcppt::log::object const *const o = get_obj(t[1]);
+    auto const l = parse_lvl_nat(t[2]);
+    if (o == nullptr || !l)
+      return "bad-op";
+    clear_sinks();
+    fcppt::log::level_stream const &stream = o->level_sink(to_level(*l));
+    if (t[3] == "@") // the object's own formatter, the very same object, as additional formatter
+      stream.log(fcppt::log::out << t[4], o->formatter());
+    else
+      stream.log(fcppt::log::out << t[4], parse_fmt(t[3]));
+    bool const same = &stream == &o->level_streams()[to_level(*l)] && &stream == &context->level_streams().get()[to_level(*l)];
+    return collect_sinks() + " same=" + (same ? "1" : "0");
+  }
+  if (op == "cstr" && t.size() == 4)
+  {
+    auto const l = parse_lvl_nat(t[1]);
+    if (!l)
+      return "bad-op";
+    clear_sinks();
+    fcppt::log::context const &c = *context;
+    c.level_streams().get()[to_level(*l)].log(fcppt::log::out << t[3], parse_fmt(t[2]));
+    return collect_sinks();
+  }
+  if (auto r = stateless(t))
+    return *r;
   return "bad-op";
+}
+
+// ---- exhaustive enumeration of small histories ---------------------------------------------------------------
+using op_tokens = std::vector<std::string>;
+
+std::vector<op_tokens> parse_ops(std::string const &s)
+{
+  std::vector<op_tokens> r;
+  if (s == "-")
+    return r;
+  for (std::string const &o : split(s, ';'))
+    r.push_back(split(o, ','));
+  return r;
+}
+
+std::uint64_t feed(std::uint64_t const h, std::string const &line) { return vh::fnv(vh::fnv(h, line), "\n"); }
+
+// The enumerator runs millions of operations: the operations of the alphabet and the observed locations are parsed
+// once.  (`case` lines and the prefix of an `enum` line go through handle_core; the Lean driver has one path only, so
+// the two C++ paths are compared with each other through it.)
+struct fast_op
+{
+  enum class kind
+  {
+    set,
+    objr,
+    objl,
+    objc,
+    other
+  };
+  kind k = kind::other;
+  fcppt::log::location loc{};
+  fcppt::log::optional_level lvl{};
+  std::size_t id = 0;
+  op_tokens toks{};
+};
+
+fast_op compile(op_tokens const &t)
+{
+  fast_op r;
+  r.toks = t;
+  if (t.size() == 3 && t[0] == "set")
+  {
+    auto const loc = parse_loc(t[1]);
+    auto const lvl = parse_level(t[2]);
+    if (loc && lvl)
+    {
+      r.k = fast_op::kind::set;
+      r.loc = *loc;
+      r.lvl = *lvl;
+    }
+  }
+  else if (t.size() == 3 && t[0] == "objr")
+    r.k = fast_op::kind::objr;
+  else if (t.size() == 4 && t[0] == "objl")
+  {
+    if (auto const loc = parse_loc(t[1]))
+    {
+      r.k = fast_op::kind::objl;
+      r.loc = *loc;
+    }
+  }
+  else if (t.size() == 4 && t[0] == "objc")
+  {
+    if (auto const id = parse_nat(t[1]))
+    {
+      r.k = fast_op::kind::objc;
+      r.id = *id;
+    }
+  }
+  return r;
+}
+
+std::string run_fast(fast_op const &o)
+{
+  switch (o.k)
+  {
+  case fast_op::kind::set:
+    context->set(o.loc, o.lvl);
+    return "ok";
+  case fast_op::kind::objr:
+    return add_obj(std::make_unique<fcppt::log::object>(fcppt::make_ref(*context), make_params(o.toks[1], o.toks[2])));
+  case fast_op::kind::objl:
+    return add_obj(std::make_unique<fcppt::log::object>(
+        fcppt::make_ref(*context), o.loc, fcppt::log::parameters{parse_name(o.toks[2]), parse_fmt(o.toks[3])}));
+  case fast_op::kind::objc:
+    if (o.id >= objects.size() || !objects[o.id])
+      return "bad-op";
+    return add_obj(std::make_unique<fcppt::log::object>(*objects[o.id], make_params(o.toks[2], o.toks[3])));
+  case fast_op::kind::other:
+    break;
+  }
+  return handle_core(o.toks);
+}
+
+std::uint64_t observe(std::vector<fcppt::log::location> const &locs, std::size_t const step, std::uint64_t h)
+{
+  fcppt::log::context const &c = *context;
+  for (fcppt::log::location const &l : locs)
+    h = feed(h, "lvl=" + show_level(c.get(l)));
+  std::string const msg{"m"};
+  for (std::size_t i = 0; i < objects.size(); ++i)
+  {
+    if (!objects[i])
+      continue;
+    h = feed(h, obj_line(*objects[i]));
+    unsigned const l = static_cast<unsigned>((i + step) % 6U);
+    if ((i + step) % 2U == 0U)
+    {
+      objects[i]->log(to_level(l), fcppt::log::out << msg);
+      h = feed(h, collect_sinks());
+    }
+    else
+    {
+      evaluations = 0;
+      log_macro(*objects[i], l, msg);
+      h = feed(h, collect_sinks() + " ev=" + std::to_string(evaluations));
+    }
+  }
+  return h;
+}
+
+// the context cannot be copied: every history is replayed from a fresh context
+struct enumerator
+{
+  bool each;
+  fcppt::log::optional_level root;
+  char cfg;
+  std::vector<op_tokens> prefix;
+  std::vector<op_tokens> alphabet;
+  std::vector<fcppt::log::location> locs;
+  std::vector<fast_op> fast{};
+  std::uint64_t count = 0;
+  std::uint64_t total = vh::fnv_init;
+  std::vector<std::size_t> word{};
+
+  static bool creates(op_tokens const &o) { return o[0] == "objr" || o[0] == "objl" || o[0] == "objc"; }
+
+  // an objc needs its parent
+  bool valid_next(std::size_t const nobjs, op_tokens const &o) const
+  {
+    if (o[0] != "objc")
+      return true;
+    auto const id = parse_nat(o.size() > 1 ? o[1] : std::string{});
+    return id && *id < nobjs;
+  }
+
+  // returns false if an operation was rejected
+  bool replay(std::uint64_t &h)
+  {
+    fresh(root, cfg);
+    std::size_t step = 0;
+    h = vh::fnv_init;
+    auto const done = [&](std::string const &r) {
+      if (r == "bad-op")
+        return false;
+      h = feed(h, r);
+      ++step;
+      if (each)
+        h = observe(locs, step, h);
+      return true;
+    };
+    for (op_tokens const &o : prefix)
+      if (!done(handle_core(o)))
+        return false;
+    for (std::size_t const i : word)
+      if (!done(run_fast(fast[i])))
+        return false;
+    if (!each)
+      h = observe(locs, step, h);
+    return true;
+  }
+
+  void rec(unsigned const k, std::size_t const nobjs)
+  {
+    if (k == 0)
+    {
+      std::uint64_t h = 0;
+      if (!replay(h))
+        return; // cannot happen for a prefix that was accepted and an alphabet filtered by valid_next
+      ++count;
+      total = (total ^ h) * 1099511628211ULL;
+      return;
+    }
+    for (std::size_t i = 0; i < alphabet.size(); ++i)
+    {
+      if (!valid_next(nobjs, alphabet[i]))
+        continue;
+      word.push_back(i);
+      rec(k - 1, nobjs + (creates(alphabet[i]) ? 1U : 0U));
+      word.pop_back();
+    }
+  }
+};
+
+bool known_cfg(std::string const &c) { return c == "D" || c == "N" || c == "M"; }
+
+std::string handle_inner(std::vector<std::string> const &t)
+{
+  if (!t.empty() && t[0] == "enum" && t.size() == 8)
+  {
+    auto const k = parse_nat(t[1]);
+    auto const root = parse_level(t[3]);
+    if (!k || *k > 6 || !root || !(t[2] == "e" || t[2] == "f") || !known_cfg(t[4]))
+      return "bad-op";
+    std::vector<fcppt::log::location> locs;
+    for (std::string const &l : split(t[7], ','))
+    {
+      auto const loc = parse_loc(l);
+      if (!loc)
+        return "bad-op";
+      locs.push_back(*loc);
+    }
+    enumerator e{t[2] == "e", *root, t[4][0], parse_ops(t[5]), parse_ops(t[6]), locs};
+    for (auto const &o : e.alphabet)
+    {
+      if (o.empty() || o[0].empty())
+        return "bad-op";
+      e.fast.push_back(compile(o));
+    }
+    // the prefix must be accepted as it stands
+    std::uint64_t h = 0;
+    if (!e.replay(h))
+      return "bad-op";
+    std::size_t nobjs = 0;
+    for (auto const &o : e.prefix)
+      nobjs += enumerator::creates(o) ? 1U : 0U;
+    e.rec(static_cast<unsigned>(*k), nobjs);
+    fresh(fcppt::log::optional_level{fcppt::log::level::warning}, 'D'); // leaves the `reset` state behind
+    return "n=" + std::to_string(e.count) + " h=" + vh::hex64(e.total);
+  }
+  if (!t.empty() && t[0] == "case" && t.size() == 5)
+  {
+    auto const root = parse_level(t[1]);
+    if (!root || !known_cfg(t[2]))
+      return "bad-op";
+    // runs on a context of its own and leaves the `reset` state behind (as `enum` does)
+    fresh(*root, t[2][0]);
+    std::string r;
+    for (op_tokens const &o : parse_ops(t[3]))
+      if (handle_core(o) == "bad-op")
+        r = "bad-op";
+    if (r.empty())
+      r = handle_core(split(t[4], ','));
+    fresh(fcppt::log::optional_level{fcppt::log::level::warning}, 'D');
+    return r;
+  }
+  return handle_core(t);
 }
 
 std::string handle(std::vector<std::string> const &t)
@@ -346,6 +921,7 @@ std::string handle(std::vector<std::string> const &t)
 
 int main()
 {
+  vh::op_budget() = 120;
   int const r = vh::run(handle);
   // destroy in the right order before the static sinks go away (keeps LeakSanitizer exact)
   objects.clear();
